@@ -159,6 +159,19 @@ theorem C20_zero_period_when_only_external_flows (f : Flags) (hf : ∀ c, f.comm
   rw [hone] at this
   simpa [Rat.sub_self] using this
 
+/-- **the monitor's form**: `calmPeriodB` (Spec/PortfolioPeriodSpec.lean) is the executable test of the hypotheses — every
+transaction of the period un-annotated and made of mirrored posting pairs, and for every position booked so far: not an
+asset/liability account, or in the valuation commodity, or of quantity zero, or with the same normalised price after the
+day as before.  The driver evaluates `calmPeriods` on every generated case and the harness requires the REAL command to
+print 0.0 % for the periods it marks (`zero_period_when_calm`). -/
+theorem C20_zero_period_of_monitor (f : Flags) (hf : ∀ c, f.commodityFilter c = true)
+    (ds : List Directive) (lines : List (Int × Option Rat)) (part : Partition) (days : List Day) (perfs : List DayPerf)
+    (h : returns f ds = .ok lines) (hs : setup f ds = .ok (part, days)) (hp : perfFrom f.cfg {} days = .ok perfs)
+    (p : Period) (hpp : p ∈ part.periods) (hne : p.start ≤ p.stop) (hcalm : calmPeriodB f days p = true)
+    (hden : ∀ q ∈ perfs, p.start ≤ q.date → q.date ≤ p.stop → sumVals q.v0 + q.inflow ≠ 0) :
+    (p.stop, some 0) ∈ lines ∧ ∀ l ∈ lines, l.1 = p.stop → l.2 = some 0 :=
+  C20_zero_period_when_only_external_flows f hf ds lines part days perfs h hs hp p hpp hne (calmPeriodB_sound hcalm) hden
+
 /-- **end value over start value minus one, for a period whose day records carry no flows**: the line of period `p` is
 `V(p.stop) / V(p.start − 1) − 1`, `V(D)` the total of `valueAt perfs D` — the values `ComputeValues` recorded on the last
 day not after `D` (`C20_valueAt_record`; for every period but the first, `p.start − 1` is the previous period end, which
@@ -277,6 +290,9 @@ example : (3, some 0) ∈ pLines ∧ ∀ l ∈ pLines, l.1 = 3 → l.2 = some 0 
         injection hv with hv; subst hv
         exact p_rest
   · decide +kernel
+
+/-- the executable test marks periods 1 and 3 (on day 1 prices are declared, but nothing is held before), not period 2 -/
+example : calmPeriods pF pDs = [(1, true), (2, false), (3, true)] := by decide +kernel
 
 /-- the hypotheses of `C20_ratio_period_without_flows` hold for period 2 (no transaction, a price change):
 `V(2) / V(1) − 1 = 220 / 200 − 1 = 10 %` -/
